@@ -5,7 +5,7 @@ META = dict(
     category='model_checking',
     engine='Repo',
     technique='TLA+ spec Repo (state machine of MutableRepo/Transaction): TLC checks ViewOK on every committed view of the model; TLC-judged log of random real transactions (I->S) and TLC-generated behaviours replayed through the real API (S->I)',
-    text='Invariant ViewOK on every committed view: heads are an antichain, the root is a head only alone, every add-term of every local bookmark and every working-copy commit is visible. TLC checks it over all behaviours of the transcribed state machine (add_head/normalize_heads, set_local_bookmark_target, edit/check_out, rebase_descendants, merge_view) within 6-7 commits, 2 bookmarks, 2 workspaces, transactions from any operation (concurrency) and their reconciliation, and on random deeper behaviours (10 commits, 5 operations). Binding both ways: a seeded driver performs random real transactions (new/rewrite/abandon/divergent, bookmarks incl. conflicted, edit/check_out/remove workspace, rebase with every empty policy, concurrent pairs/triples/criss-cross reconciled by load_at_head or merge_operations, op restore) and TLC evaluates ViewOK on every committed view against the observed commit graph; TLC-generated behaviours are replayed through MutableRepo/Transaction comparing visible set, bookmarks, working copies after every action and heads after every commit.',
+    text='Invariant ViewOK on every committed view: heads are an antichain, the root is a head only alone, every add-term of every local bookmark and every working-copy commit is visible. TLC checks it over all behaviours of the transcribed state machine (add_head/normalize_heads, set_local_bookmark_target, edit/check_out, rebase_descendants, merge_view) within 6-7 commits, 2 bookmarks, 2 workspaces, transactions from any operation (concurrency) and their reconciliation, and on random deeper behaviours (10 commits, 5 operations). Binding both ways: a seeded driver performs random real transactions (new/rewrite/abandon/divergent, bookmarks incl. conflicted, new commits and merge commits on top of HIDDEN (abandoned / rewritten-away) commits alone in a fresh transaction (scripted in every run and random), edit/check_out/remove workspace, rebase with every empty policy, concurrent pairs/triples/criss-cross reconciled by load_at_head or merge_operations, op restore) and TLC evaluates ViewOK on every committed view against the observed commit graph; TLC-generated behaviours are replayed through MutableRepo/Transaction comparing visible set, bookmarks, working copies after every action and heads after every commit.',
     note='Remote bookmarks, tags and git refs are not modelled. Commits are identified by model-assigned change ids/descriptions, never by hash.',
     design='4 C10',
 )
